@@ -181,8 +181,16 @@ def run_driver(lines, timeout=3000):
     return outs
 
 
+def _canon_default(o):
+    if isinstance(o, (set, frozenset)):
+        return sorted(o, key=repr)
+    if isinstance(o, bytes):
+        return {"bytes": o.hex()}
+    return repr(o)
+
+
 def canon(x):
-    return json.dumps(x, sort_keys=True, ensure_ascii=True, separators=(",", ":"))
+    return json.dumps(x, sort_keys=True, ensure_ascii=True, separators=(",", ":"), default=_canon_default)
 
 
 def load_known(pid):
